@@ -695,3 +695,32 @@ def owned_field_overwrites(eng, fn):
         if i.block.id in IN: transfer(i.block, IN[i.block.id], (i, got))
         res.append((i, L, bool(got) and L in got[0]))
     return res
+
+
+def partial_updates(eng, fn, fa, k):
+    """R7: stores into a long-lived (destructible) parameter object that can execute before the failure edge of site k is
+    taken, when that edge leads to the function's failure return: the object is left half-updated although failure is reported.
+    Returns [(store inst, param index)]"""
+    if fa.fp is None or not fa.null_edges.get(k): return []
+    dtypes = destructible_types(eng)
+    params = [j for j, p in enumerate(fn.params) if p.get("di", "").replace("const ", "").rstrip("* ").strip() in dtypes and p["t"].endswith("*")]
+    if not params: return []
+    srcs = {p for (p, b) in fa.null_edges[k]}
+    # blocks from which a failure-edge source is reachable
+    can_reach = set()
+    for b in fn.blocks:
+        if fn.reachable(b.id) & srcs: can_reach.add(b.id)
+    site = fa.sites[k].inst
+    out = []
+    for b in fn.blocks:
+        if b.id not in can_reach: continue
+        for i in b.insts:
+            if i.op != "store": continue
+            # only stores that precede the failing allocation on the path (same block: earlier index; other blocks: reach the site)
+            if site is not None:
+                if i.block is site.block and i.idx > site.idx: continue
+                if i.block is not site.block and site.block.id not in fn.reachable(i.block.id): continue
+            roots = fa.fp.roots(i.ops[1])
+            for r in roots:
+                if r[0] == "arg" and r[1] in params and r[2] == 0: out.append((i, r[1])); break
+    return out
